@@ -35,7 +35,12 @@ class E1(Exception):
 
 
 class E1Sub(E1):
-    pass
+    """... and one that cannot even be printed: whoever formats it (a log line) must not let that change the retrying"""
+
+    def __str__(self):
+        raise TypeError("this exception cannot be rendered")
+
+    __repr__ = __str__
 
 
 class E3(Exception):
